@@ -108,6 +108,23 @@ func hopByHopHeaderRemove(outreq, req *bfe_http.Request) {
 	// is modifying the same underlying map from req (shallow
 	// copied above) so we only copy it if necessary.
 	copiedHeaders := false
+
+	// Remove headers listed in the "Connection" header, which are also
+	// hop-by-hop headers (RFC 7230, section 6.1).
+	for _, f := range outreq.Header["Connection"] {
+		for _, h := range strings.Split(f, ",") {
+			if h = strings.TrimSpace(h); h == "" || outreq.Header.Get(h) == "" {
+				continue
+			}
+			if !copiedHeaders {
+				outreq.Header = make(bfe_http.Header, len(req.Header))
+				bfe_http.CopyHeader(outreq.Header, req.Header)
+				copiedHeaders = true
+			}
+			outreq.Header.Del(h)
+		}
+	}
+
 	for _, h := range bfe_basic.HopHeaders {
 		hv := outreq.Header.Get(h)
 		if hv == "" {
